@@ -451,6 +451,36 @@ def job_rescale(job, n, frame):
         if changed:
             job._violation(f"{tag}/caller's table untouched[path{k}]", {}, {"what": changed, "replayer": "replay_rescale", "replayer_kwargs": rp[1]}, None)
     job.prove(f"{tag}/reach", res[0].pc if res else [T.b_const(False)], expect="sat")
+    # an initial pressure above the table (or a frac-face pressure below it) is outside the table: an error, not a table
+    # that merely looks rescaled
+    for what, extra in (("p_i above the table", [T.b_le(P(ps[0]), P(pf)), T.b_le(P(pf), P(ps[-1])), T.b_lt(P(ps[-1]), P(pi))]),
+                        ("p_frac below the table", [T.b_lt(P(pf), P(ps[0])), T.b_le(P(ps[0]), P(pi)), T.b_le(P(pi), P(ps[-1]))])):
+        dom_out = [c for c in dom[:-3]] + extra
+        rpo = (replay_rescale_outside, {"n": n, "frame": frame, "which": what})
+        for k, pr in enumerate(paths(job, lambda: mod.rescale_pseudopressure(tab, pf, pi), dom_out, catch=(Exception,), max_paths=64)):
+            if pr.exc is None:
+                job.prove(f"{tag}/{what}: accepted[path{k}]", pr.pc, bound=f"{n} rows", replay=rpo)
+            else:
+                job.record(f"{tag}/{what}: raises {type(pr.exc).__name__}[path{k}]", "unsat", 0.0, note=str(pr.exc)[:60])
+
+
+def replay_rescale_outside(model, n=3, frame=True, which="p_i above the table"):
+    import numpy as np
+    import pandas as pd
+    from bluebonnet.flow import flowproperties as fp
+    names = _names(n, ("pressure", "pseudopressure"))
+    m = model_floats(model, names, default={k: 1.0 for k in names})
+    t = _real_table(m, n, ("pressure", "pseudopressure"))
+    lo, hi = float(t["pressure"][0]), float(t["pressure"][-1])
+    cases = [(0.5 * (lo + hi), hi * (1 + 1e-9)), (0.5 * (lo + hi), hi + 100.0)] if which.startswith("p_i") else [(lo * (1 - 1e-9), hi), (0.5 * lo, hi)]
+    for pf_, pi_ in cases:
+        arg = pd.DataFrame(t) if frame else {k: v.copy() for k, v in t.items()}
+        try:
+            fp.rescale_pseudopressure(arg, pf_, pi_)
+        except Exception:  # noqa: BLE001
+            continue
+        return True, {"what": f"rescale_pseudopressure accepted p_frac={pf_!r}, p_i={pi_!r} on a table spanning [{lo!r}, {hi!r}] psia", "inputs": m}
+    return False, {"what": "pressures outside the table are rejected", "inputs": m}
 
 
 from .c15 import job_table as _c15_job_table, replay_table_untouched  # noqa: E402,F401  (construction through FlowPropertiesTwoPhase.from_table)
